@@ -9,8 +9,9 @@ Space   : product-exhaustive over three families, register size n = 1..4 (thorou
                        or as bit string (all int/str patterns), for every program shape with
                        that many readouts (separate sections / one looped section / mixed);
           (c) "pert" - basis and uniform probability vectors plus every perturbation from
-                       {+-1e-15, +-5e-14} on every set of <= k entries (k = all entries for
-                       n <= 2), handed to the result classes through a one-line backend.
+                       {+-1e-15, +-5e-14, +-1e-7} (the last pair for the smaller n) on every set
+                       of <= k entries (k = all entries for n <= 2), handed to the result
+                       classes through a one-line backend.
 Oracle  : written here from the statement (key(b)[i] = bit i of b, qubit 0 leftmost and least
           significant): probabilities >= 0 and sum to 1; every *_by_str view has exactly the
           2^n keys in integer order with the value of *_by_int[b]; Readout.as_str has n
@@ -29,8 +30,12 @@ from mc.fuel import fuel, OutOfFuel
 TOL = 1e-12
 FUEL = 2_000_000
 
-# perturbation alphabet (code 0 = untouched); all far below ProbabilisticSubcircuit.CUTOFF_FAIL
-ALPHA = (0.0, 1e-15, -1e-15, 5e-14, -5e-14)
+# perturbation alphabet (code 0 = untouched).  Codes 1-4 are the rounding-error sized values of
+# DESIGN.md (below CUTOFF_WARN one at a time); codes 5-6 are large enough for a missing
+# renormalisation to be visible at 1e-12, and small enough that no combination used here reaches
+# ProbabilisticSubcircuit.CUTOFF_FAIL (2e-6): at most 4 entries are perturbed at once.
+ALPHA = (0.0, 1e-15, -1e-15, 5e-14, -5e-14, 1e-7, -1e-7)
+PERT_TOL = 1e-5  # closeness of the normalised vector to the vector handed in
 
 
 # ---------------------------------------------------------------- oracle (from the statement)
@@ -310,7 +315,7 @@ class C15(Check):
     rule = (
         "product-exhaustive: (emu) n x outcome b x H-subset h; (out) n x program shape x every output list "
         "(length <= 2, thorough 3 for n <= 3) x every int/str pattern; (pert) n x {basis b, uniform} x every "
-        "perturbation of <= k entries by {+-1e-15, +-5e-14}. Non-trivial = a non-palindromic outcome string has "
+        "perturbation of <= k entries by {+-1e-15, +-5e-14, +-1e-7}. Non-trivial = a non-palindromic outcome string has "
         "non-zero probability or is recorded (a bit reversal would be visible); distinct by canonical input"
     )
     assumptions = (
@@ -320,9 +325,9 @@ class C15(Check):
         "on readout-only results (parse_jaqal_output_list) `probability_by_*` is the documented deprecated alias of "
         "`relative_frequency_by_*` and is judged as a relative-frequency view (counts), not as a probability",
         "relative frequencies are the raw counts, as the statement words it",
-        "the probability views are additionally required to lie within 1e-9 of the distribution that was produced "
-        "(emulator: the H-superposition written down by the oracle; backend: the vector handed in), perturbations "
-        "stay below ProbabilisticSubcircuit.CUTOFF_FAIL and warnings are not judged",
+        "the probability views are additionally required to lie near the distribution that was produced "
+        "(emulator: within 1e-9 of the H-superposition written down by the oracle; backend: within 1e-5 of the vector "
+        "handed in), perturbations stay below ProbabilisticSubcircuit.CUTOFF_FAIL and warnings are not judged",
         "sampled readouts are judged only by seed-independent facts (range, support, attribution, counting)",
     )
 
@@ -332,8 +337,9 @@ class C15(Check):
             "max_qubits": 4 if q else 5,
             "max_output_list": 2 if q else 3,
             "max_qubits_for_longest_list": 4 if q else 3,
-            "perturbed_entries": {"1": 2, "2": 4, "3": 2 if q else 3, "4": 2, "5": 2},
+            "perturbed_entries": {"1": 2, "2": 4, "3": 2 if q else 3, "4": 1 if q else 2, "5": 2},
             "perturbation_alphabet": list(ALPHA),
+            "perturbation_codes": {"1": 6, "2": 6, "3": 6, "4": 4 if q else 6, "5": 4},
         }
 
     # -- enumeration ----------------------------------------------------------------
@@ -360,7 +366,7 @@ class C15(Check):
             for base in list(range(dim)) + [-1]:
                 for size in range(0, min(k, dim) + 1):
                     for pos in itertools.combinations(range(dim), size):
-                        for codes in itertools.product(range(1, len(ALPHA)), repeat=size):
+                        for codes in itertools.product(range(1, 1 + bd["perturbation_codes"][str(n)]), repeat=size):
                             yield ("pert", n, base, tuple(zip(pos, codes)))
 
     # -- shrinking --------------------------------------------------------------------
@@ -527,7 +533,7 @@ class C15(Check):
         j.readouts(res, (0, 0, 1), support=support)
         if len(res.subcircuits) == 2:
             for k, sub in enumerate(res.subcircuits):
-                j.probabilities(sub, "subcircuit %d" % k, expect=vectors[k])
+                j.probabilities(sub, "subcircuit %d" % k, expect=vectors[k], tol=PERT_TOL)
 
     def selfcheck(self):
         # the oracle's own conventions
